@@ -163,8 +163,12 @@ def prepare(workdir):
     copy_tree(pristine, probe)
     cand = [p for p in walk(probe) if not p.endswith(".wowm") and not p.endswith("Cargo.toml") and not p.endswith("Cargo.lock") and not p.startswith("wow_message_parser/src/") or p.startswith("wow_message_parser/src/parser/stats/")]
     for p in cand:
-        with open(os.path.join(probe, p), "ab") as f:
-            f.write(b"\n// VERIF-JUNK\n")
+        # junk in front and behind: a file whose hand-written head is preserved by the generator (SUMMARY.md,
+        # update-mask.md, lang-spec.md ...) keeps the junk and is therefore not classified as generated
+        with open(os.path.join(probe, p), "rb") as f:
+            body = f.read()
+        with open(os.path.join(probe, p), "wb") as f:
+            f.write(b"// VERIF-JUNK\n" + body + b"\n// VERIF-JUNK\n")
     st, ops, out = run_generator(probe)
     ps = tree_state(probe) if st == 0 else {}
     c.generated = sorted(p for p in cand if ps.get(p) == c.Rstate.get(p))
@@ -194,6 +198,15 @@ CRASH_MANNERS = ["before", "truncate", "torn", "after", "enospc"]
 def gen_scenario(c, i, seed, tier):
     rng = random.Random((seed << 20) ^ (i * 0x9E3779B97F4A7C15 & 0xFFFFFFFFFFFF))
     gen = c.generated
+    n_sweep = 0 if tier == "quick" else int(os.environ.get("VERIF_C08_SWEEP", "320"))
+    if i < n_sweep or (tier == "quick" and i in (1, 2)):
+        # structured crash sweep: every generated file deleted, the rebuilding execution is killed at operation j
+        total = max(len(gen), 1)
+        j = (i * 7919) % total if tier != "quick" else [0, total // 2, total - 1][i % 3]
+        manner = CRASH_MANNERS[i % len(CRASH_MANNERS)]
+        return {"index": i, "label": "sweep: all generated files deleted, crash at op %d (%s)" % (j, manner), "order_seed": rng.randrange(1 << 30),
+                "faults": [{"kind": "delete_all_generated", "path": ""}], "crashes": [{"pos": "abs", "idx": j, "frac": 0.0, "manner": manner, "k": rng.randrange(1, 4000)}],
+                "final_runs": 2 if i % 4 == 0 else 1, "aslr_off": False, "pad_env": 0}
     faults = []
     k = rng.choice([1, 1, 2, 2, 5, 5, 20, 50])
     if i % 11 == 0:
@@ -249,6 +262,12 @@ def apply_fault(root, c, f):
             open(os.path.join(p, "zz_verif_inner.rs"), "w").write("// stale\n")
         elif kind == "delete_dir":
             shutil.rmtree(p, ignore_errors=True)
+        elif kind == "delete_all_generated":
+            for g in c.generated:
+                try:
+                    os.remove(os.path.join(root, g))
+                except FileNotFoundError:
+                    pass
         return True
     except FileNotFoundError:
         return False
@@ -306,7 +325,10 @@ def exec_scenario(c, sc, keep=False):
             cnt("crash_not_placed_no_work")
             continue
         kinds = [o.split("\t")[1] for o in ops]
-        if cr["pos"] == "first":
+        if cr["pos"] == "abs":
+            idx = min(cr.get("idx", 0), n - 1)
+            cnt("probe_crash_in_full_rebuild")
+        elif cr["pos"] == "first":
             idx = 0
         elif cr["pos"] == "last":
             idx = n - 1
@@ -539,6 +561,9 @@ def replay(path):
 if __name__ == "__main__":
     if len(sys.argv) >= 3 and sys.argv[1] == "check":
         sys.exit(check(sys.argv[2]))
+    if len(sys.argv) >= 2 and sys.argv[1] == "build":
+        build_generator()
+        sys.exit(0)
     if len(sys.argv) >= 3 and sys.argv[1] == "replay":
         sys.exit(replay(sys.argv[2]))
     print(__doc__)
